@@ -13,6 +13,7 @@ func init() {
 	vpRegister("VPH_C18_optypes", VPH_C18_optypes)
 	vpRegister("VPH_C19_refused_keeps_global", VPH_C19_refused_keeps_global)
 	vpRegister("VPH_C19_second_client", VPH_C19_second_client)
+	vpRegister("VPH_C19_two_clients_fixed_instant", VPH_C19_two_clients_fixed_instant)
 }
 
 // vpAt returns the time.Time the code sees when the clock reads t.
@@ -267,4 +268,28 @@ func VPH_C19_second_client() {
 	// the global limit (burst 2) has admitted at most one request so far: a compliant client must get through
 	vpKnown("K-C19-global-token-taken-first", true)
 	vpAssert(rl.AllowRequest("10.0.0.1", "d"), "compliant-client-admitted")
+}
+
+// VPH_C19_two_clients_fixed_instant: k requests from two addresses in any order at one instant (no
+// refill), per-address burst 2, global and per-connection limits far away: each address is admitted
+// exactly for its own first two requests - nothing one client sends, admitted or refused, is charged
+// to the other.
+func VPH_C19_two_clients_fixed_instant() {
+	k := 6
+	if vpTier() == 1 {
+		k = 8
+	}
+	vpSetClock(1_000_000_000) // one fixed instant: the order of the requests is what is symbolic here
+	cfg := RateLimiterConfig{GlobalRequestsPerSecond: 1000, PerIPRequestsPerSecond: 1, PerIPBurstSize: 2,
+		PerConnectionRequestsPerSecond: 1000, PerConnectionBurstSize: 1000, CleanupInterval: time.Hour}
+	rl := NewRateLimiter(cfg)
+	ips := []string{"10.0.0.1", "10.0.0.2"}
+	sent := map[string]int{}
+	for i := 0; i < k; i++ {
+		ip := ips[vpChoose("ip", 0, 1)]
+		got := rl.AllowRequest(ip, "conn-"+ip)
+		vpAssert(got == (sent[ip] < 2), "each-client-judged-by-its-own-requests-only")
+		sent[ip]++
+	}
+	vpReach("two-clients")
 }
